@@ -396,6 +396,13 @@ def cells(prop, tier):
                                 pre=['0 <= lifeA <= 2 and 0 <= cancel_who <= 2 and 0 <= cancel_at <= 4 and 0 <= prio_idx <= 1'],
                                 body='H.scen(%r, %d, %d, %d, %d, lifeA, 0, prio_idx, 0, 0, 2, 2, cancel_who, cancel_at, %r)' % (prop, dA, dB, dC, dur, ut),
                                 tier=q, timeout=600, family=lp, weight=2))
+    # B and C both arrive the instant A's loop has stopped: both see the dead marker
+    if prop in ('C01', 'C06'):
+        for pr in (0, 2, 4):
+            out.append(Cell(name='%s_3t_double_takeover_prio%d' % (lp, pr), sig='lifeA: int, p1: int, q1: int',
+                            pre=['1 <= lifeA <= 2 and 0 <= p1 <= 90 and 0 <= q1 <= 1'],
+                            body='H.scen(%r, 1, 1, 1, 3, lifeA, 0, %d, p1, q1, 3, 1)' % (prop, pr),
+                            tier=q, timeout=900, family=lp, weight=5))
     if prop in ('C06', 'C05'):
         # two callers on the computing loop (the second parked on the computation's event) while that loop stops / closes mid-computation
         for life in range(3):
